@@ -853,12 +853,14 @@ def Array(
                         return list(chain.from_iterable(_val))
                     return _val
 
-                if isinstance(_length, DataType):
+                if isinstance(_length, DataType) or (
+                    isinstance(_length, type) and issubclass(_length, DataType)
+                ):
                     _len = _length.decode(stream)
                 else:
                     _len = _length
 
-                _val = [cls.element_type.decode(stream) for _ in range(_length)]
+                _val = [cls.element_type.decode(stream) for _ in range(_len)]
 
                 if cls._bit_elements:
                     return list(chain.from_iterable(_val))
